@@ -21,4 +21,4 @@ instead of (1, 0..0). A passing check means the decided clauses hold, not that t
 CLAIM = """Static decision of the shape of the mechanisms the leftmost semantics rest on (phase order, failure-link cut, pruning, start-loop
 closing, mat discipline, iterator restart and empty-match rule). The input-quantified behaviour is not decided by this family."""
 NOTE = """Trusted: rustc MIR construction, the fact extractor. Large undecided remainder (see coverage.not_decided, including defect D5)."""
-TECHNIQUE = "static analysis: dominance-based phase ordering, graph cuts and term matching over rustc MIR of the builder and search driver"
+TECHNIQUE = "static analysis: dominance-based phase ordering, graph cuts, and path / loop-iteration summaries (path-sensitive value flow over rustc MIR) of the trie and failure-link builders and the search driver"
